@@ -12,6 +12,8 @@
 //	              op   add:<mb> | rm:<mb>:<k> | purge:<mb> | seen:<mb>:<k>
 //	                   padd:<mb> (only at r<n>): a delivery already past its mailbox lookup when the scanner's
 //	                   n-th RemoveMessage runs, taking the mailbox lock right after it (reported as a<n>/add)
+//	                   pv/padd:<mb>: a delivery past its mailbox lookup before the walk collects the mailboxes,
+//	                   taking the mailbox lock after the first callback (reported as v2/add)
 //	   cancelAt n: the context is cancelled during the n-th callback (RetentionSleep 100 ms); nz / nn: the same
 //	            with RetentionSleep 0 / 1 ns (the select at the callback end is then a race); "-": never
 //	 => <order of callbacks> <ok|ERR> <callbacks> E=<effective schedule> D=<survivors> R=<removed by the scanner>
@@ -175,6 +177,49 @@ type hookStore struct {
 
 func (h *hookStore) VisitMailboxes(f func([]storage.Message) bool) error {
 	d := h.d
+	// "pv/padd:<mb>": a delivery that has looked its mailbox up BEFORE the walk collects the mailboxes (memory store:
+	// parked at mem.wm.lock) and takes the mailbox lock only after the first callback (or after the walk, if it makes
+	// no callback); reported at the position where it completes, v<callbacks+1>.
+	var late *inj
+	for _, in := range d.injs {
+		if !in.done && in.pos == "pv" && in.op[0] == "padd" {
+			in.done = true
+			late = in
+			break
+		}
+	}
+	var fin chan struct{}
+	if late != nil && d.isMem {
+		target := vh.US(late.op[1])
+		d.parkMb, d.parked, d.release = target, make(chan struct{}), make(chan struct{})
+		fin = make(chan struct{})
+		atomic.StoreInt32(&d.armed, 1)
+		go func() { d.add(target, 0); close(fin) }()
+		select {
+		case <-d.parked:
+		case <-fin:
+		case <-time.After(2 * time.Second):
+		}
+		atomic.StoreInt32(&d.armed, 0)
+	}
+	complete := func() {
+		if late == nil {
+			return
+		}
+		if d.isMem {
+			close(d.release)
+			select {
+			case <-fin:
+			case <-time.After(5 * time.Second):
+				d.eff = append(d.eff, "STUCK")
+			}
+		} else {
+			d.add(vh.US(late.op[1]), 0)
+		}
+		d.eff = append(d.eff, d.nextVisit()+"/add:"+late.op[1])
+		late = nil
+	}
+	defer complete()
 	return h.Store.VisitMailboxes(func(ms []storage.Message) bool {
 		name := "-"
 		if len(ms) > 0 {
@@ -186,6 +231,7 @@ func (h *hookStore) VisitMailboxes(f func([]storage.Message) bool) error {
 		}
 		cont := f(ms)
 		d.callbacks++
+		complete()
 		if !cont {
 			d.stopped = true
 			return false
